@@ -471,8 +471,13 @@ impl DomSim {
         let same_dom: Vec<NodeId> = model.dom_nodes(dom);
         let mut specs: Vec<Option<NodeSpec>> = Vec::new();
         for i in 0..n {
-            let class = r.pick(&["Folder", "Part", "ObjectValue", "Model", "VerifX"]).to_string();
-            let name = if r.chance(1, 3) { class.clone() } else { format!("b{}_{}", base / ID_STRIDE, i) };
+            let class = r.pick(&["Folder", "Part", "ObjectValue", "Model", "VerifX", "Folder", "Part", ""]).to_string();
+            let name = match r.below(12) {
+                0..=3 => class.clone(),
+                4 => String::new(),
+                5 => spec::stringv(r),
+                _ => format!("b{}_{}", base / ID_STRIDE, i),
+            };
             let mut props: Vec<(String, ValSpec)> = Vec::new();
             let n_props = r.below(4);
             for _ in 0..n_props {
